@@ -146,13 +146,13 @@ def aging_space(race=False):
 def flow_records(pid, proto, tier):
     t0 = time.time()
     b = build("flow")
-    names = ["tpl2", "tpl3s", "pad8", "twosets", "allelems", "loaded", "counts", "typeinfo"]
+    names = ["tpl2", "tpl3s", "pad8", "twosets", "allelems", "loaded", "counts", "typeinfo", "valsweep"]
     if tier == "thorough":
         names.append("tpl3")
     res = [run_space(b, proto + "." + n, tier) for n in names]
     res.append(aging_space())
     return finish(pid, tier, res,
-                  rule="cases are generated from an abstract description: template of 1..3 field kinds over the kind alphabet (one element per abstract type x encoding class: natural, reduced-size, fixed string/octets, variable length with 1- and 3-octet prefixes, enterprise) x scope split 0..n x 1..3 records x padding 0..3 (pad8: 4..7) x 4 value patterns x template in an earlier / the same message; twosets: two templates and two data sets in either order; allelems: every model element as a one-field template in each encoding class; loaded: the same sweep after the model has been replaced through the real ipfix.LoadExtElements from a generated ipfix.elements file (every element, every fifth re-typed, plus the private ones) - decoding must follow the model in force; counts: N records in a set / N fields in a template / N data sets in a message / N templates in one template set / (IPFIX) N records whose variable-length value differs in length from record to record / a fixed-length field of N octets / the template id N itself (256 .. 65535), N in {1..4, 7..9, 15..18, 31..33, 63..65, 100, 127..129, 255..257, 511..513, 1000, 1023..1025, 4000} (thorough: every N up to 1100 and around 2048, 4096) as far as 65000 octets allow; typeinfo: for every element of the model an RFC 5610 type-information option record (with and without the enterprise-number scope) that claims another data type for it, then a template using the element from the same / another exporter - the record decodes as ordinary option data, the element is still decoded by the collector's model, the model entry is unchanged." + AGING_RULE + " "
+                  rule="cases are generated from an abstract description: template of 1..3 field kinds over the kind alphabet (one element per abstract type x encoding class: natural, reduced-size, fixed string/octets, variable length with 1- and 3-octet prefixes, enterprise) x scope split 0..n x 1..3 records x padding 0..3 (pad8: 4..7) x 4 value patterns x template in an earlier / the same message; twosets: two templates and two data sets in either order; allelems: every model element as a one-field template in each encoding class; loaded: the same sweep after the model has been replaced through the real ipfix.LoadExtElements from a generated ipfix.elements file (every element, every fifth re-typed, plus the private ones) - decoding must follow the model in force; counts: N records in a set / N fields in a template / N data sets in a message / N templates in one template set / (IPFIX) N records whose variable-length value differs in length from record to record / a fixed-length field of N octets / the template id N itself (256 .. 65535), N in {1..4, 7..9, 15..18, 31..33, 63..65, 100, 127..129, 255..257, 511..513, 1000, 1023..1025, 4000} (thorough: every N up to 1100 and around 2048, 4096) as far as 65000 octets allow; typeinfo: for every element of the model an RFC 5610 type-information option record (with and without the enterprise-number scope) that claims another data type for it, then a template using the element from the same / another exporter - the record decodes as ordinary option data, the element is still decoded by the collector's model, the model entry is unchanged; valsweep: every value of the one- and two-octet elements (quick: one element per such type and the well-known ports / AS numbers / protocol / TOS / masks; thorough: every such element of the model)." + AGING_RULE + " "
                        "Non-trivial = every executed case (each carries >=1 record); distinct = distinct wire octets (FNV-64 of the message and of the announcing messages).",
                   assumptions=FLOW_ASSUME, t0=t0)
 
@@ -171,13 +171,13 @@ def c06(tier):
 def c08(tier):
     t0 = time.time()
     b = build("nf5")
-    res = [run_space(b, "v5.rec", tier), run_space(b, "v5.pairs", tier)]
+    res = [run_space(b, "v5.rec", tier), run_space(b, "v5.pairs", tier), run_space(b, "v5.sweep", tier)]
     d, env = sched_env("c08")
     res.append(run_space(build("pipe"), "pipe.c08", tier, env=env, hang_s=240))
     import shutil
     shutil.rmtree(d, ignore_errors=True)
     return finish("C08", tier, res,
-                  rule="v5.rec: version {5,0,9,10,0x0500} x count {1,2,29,30,0,31,65535} x datagram length {0..24, exact-48, exact-1, exact, exact+1, exact+48} x 61 content fills (position-unique, all-ones, all-zero, and per header/record field an all-ones one-hot and a low-bit pattern); v5.pairs: all ordered pairs of one-hot record fields in either record of a 2-flow packet; pipe.c08: the real v5 receive loop and two workers on three datagrams with different addresses and flow counts under the controlled scheduler, every schedule within deviation bound 1 (thorough 3), each published document compared with its own datagram's expected one, race detector as per-schedule oracle (the decode and JSON rendering must not share state between workers). "
+                  rule="v5.rec: version {5,0,9,10,0x0500} x count {1,2,29,30,0,31,65535} x datagram length {0..24, exact-48, exact-1, exact, exact+1, exact+48} x 61 content fills (position-unique, all-ones, all-zero, and per header/record field an all-ones one-hot and a low-bit pattern); v5.pairs: all ordered pairs of one-hot record fields in either record of a 2-flow packet; v5.sweep: EVERY value of every 8- and 16-bit field of the header and of either record (a value singled out for special treatment shows only when that very value is tried); pipe.c08: the real v5 receive loop and two workers on three datagrams with different addresses and flow counts under the controlled scheduler, every schedule within deviation bound 1 (thorough 3), each published document compared with its own datagram's expected one, race detector as per-schedule oracle (the decode and JSON rendering must not share state between workers). "
                        "Non-trivial = packet with a complete 24-octet header; distinct = distinct wire octets.",
                   assumptions=["field offsets/widths of the reference are transcribed from the Cisco NetFlow v5 export format", "JSON key names are those of the published format (the Go field names)"], t0=t0)
 
@@ -325,7 +325,7 @@ def c04(tier):
     res = [run_space(b, "cache.bfs", tier, hang_s=300), run_space(b, "cache.capacity", tier, hang_s=300), aging_space()]
     return finish("C04", tier, res,
                   rule="explicit-state BFS to closure, IPFIX and NetFlow v9: state = reference map over 6 keys (A/256, A/257, the same IPv4 in 4-byte form, an IPv6 exporter, and two exporters whose addr||id collide under 32-bit FNV-1; thorough adds an IPv6 colliding pair) -> one of 4 definitions (two element lists of equal length and type width, one with the same element but another field length, one with two fields) or none (thorough: 8 keys incl. an IPv6 colliding pair x 3 definitions, and 6 keys x 5 definitions); events per key: announce alone / template then data in one message / data then template in one message / data / peer IRPC.Get / peer-fetched insert; "
-                       "the reference model is searched on its own to enumerate every state with a shortest history (announcing event kinds rotate); each state is a case: successor = replay of that history on a fresh real cache + the event; after every transition every key is probed with a data message (decoded under exactly ref[k], or 'unknown template' with no records) and the canonical cache content must be a function of the reference state. Non-trivial = every reference state; distinct by state. Mode 'options': three keys x three options templates that differ only in the scope field / only in the option field / in both. Mode 'undecodable': definitions naming an element absent from the model (data for them yields nothing) superseding and superseded by a decodable one. cache.capacity: one exporter announces, N other exporter/id pairs announce afterwards (N in {1, 31..33, 1000, 4095..4097, 40000, 140000}; thorough up to 600000; with the same and with other template ids), then the first exporter's data and that of every 97th other must decode under their own templates - the statement has no bound on how many exporters there are." + AGING_RULE,
+                       "the reference model is searched on its own to enumerate every state with a shortest history (announcing event kinds rotate); each state is a case: successor = replay of that history on a fresh real cache + the event; after every transition every key is probed with a data message (decoded under exactly ref[k], or 'unknown template' with no records) and the canonical cache content must be a function of the reference state. Non-trivial = every reference state; distinct by state. Mode 'derived-addr': exporters that coincide in part of their address (two IPv6 exporters with the same low 32 bits, an IPv6 and an IPv4 exporter with the same low 32 bits). Every message of a history carries lower header times and sequence numbers than the one before. Mode 'options': three keys x three options templates that differ only in the scope field / only in the option field / in both. Mode 'undecodable': definitions naming an element absent from the model (data for them yields nothing) superseding and superseded by a decodable one. cache.capacity: one exporter announces, N other exporter/id pairs announce afterwards (N in {1, 31..33, 1000, 4095..4097, 40000, 140000}; thorough up to 600000; with the same and with other template ids), then the first exporter's data and that of every 97th other must decode under their own templates - the statement has no bound on how many exporters there are." + AGING_RULE,
                   assumptions=["states are merged on the reference map; the implementation's canonical cache content (read from the exported structure, timestamps dropped) is checked to be a function of it, which is what makes the merge sound",
                                "the FNV-colliding exporter pairs were found offline by a birthday search and are recomputed with hash/fnv at start-up",
                                "peer-fetched insert uses the cache's private insert through a verif-tagged export file injected by the overlay"], t0=t0)
